@@ -246,10 +246,21 @@ impl Scenario for C19 {
             files.push(dup);
         }
         if rng.chance(0.2) {
-            // no newline at the end of the last file
-            if let Some(last) = files.last_mut() {
-                while last.ends_with('\n') || last.ends_with('\r') {
-                    last.pop();
+            // no newline at the end of the last file, or (half of the time) of any non-empty selection of
+            // the files - a missing final newline in a file that is *not* the last one must not glue its
+            // last line to the next file's first. The selection is derived from the run seed directly so
+            // that no other parameter of the run changes.
+            let pick = derive(run_seed, 77);
+            let n = files.len();
+            let mut mask: u64 = if pick & 1 == 0 { 1 << (n - 1) } else { (pick >> 1) % (1 << n) };
+            if mask == 0 {
+                mask = 1;
+            }
+            for (i, f) in files.iter_mut().enumerate() {
+                if mask >> i & 1 == 1 {
+                    while f.ends_with('\n') || f.ends_with('\r') {
+                        f.pop();
+                    }
                 }
             }
         }
